@@ -14,6 +14,7 @@ API_TIMEOUT_MS = int(os.environ.get('PYVC_Z3_MS', '10000'))
 EXT_TIMEOUT_S = int(os.environ.get('PYVC_EXT_S', '30'))
 FEAS_TIMEOUT_MS = 1500
 FIRST_TRY_MS = int(os.environ.get('PYVC_FIRST_MS', '2500'))
+SLICE_FIRST = os.environ.get('PYVC_SLICE_FIRST', '1') != '0'
 
 
 class SolverDisagreement(Exception):
@@ -38,6 +39,74 @@ def has_quant(t):
         _HQ.clear()
     _HQ[i] = (t, r)      # the term is kept alive: z3 re-uses ids of collected terms
     return r
+
+
+ADAPT = {'first': False, 'miss': 0}
+
+
+def reset_adaptive():
+    ADAPT['first'] = False
+    ADAPT['miss'] = 0
+
+
+_SY = {}
+
+
+def array_symbols(t):
+    "names of the uninterpreted array / function symbols a term mentions"
+    i = t.get_id()
+    e = _SY.get(i)
+    if e is not None and e[0].eq(t):
+        return e[1]
+    out = set()
+    seen = set()
+    todo = [t]
+    while todo:
+        x = todo.pop()
+        k = x.get_id()
+        if k in seen:
+            continue
+        seen.add(k)
+        if z3.is_quantifier(x):
+            todo.append(x.body())
+        elif z3.is_app(x):
+            d = x.decl()
+            if d.kind() == z3.Z3_OP_UNINTERPRETED and (x.num_args() > 0 or z3.is_array(x)):
+                out.add(d.name())
+            todo.extend(x.children())
+    if len(_SY) > 50000:
+        _SY.clear()
+    _SY[i] = (t, frozenset(out))
+    return _SY[i][1]
+
+
+def sliced_unsat(assertions, per_try_ms=1500, max_hyps=8):
+    goal = assertions[-1]
+    if not has_quant(goal):
+        return False
+    gs = array_symbols(goal)
+    if not gs:
+        return False
+    qf = [a for a in assertions[:-1] if not has_quant(a)]
+    scored = []
+    for n, a in enumerate(assertions[:-1]):
+        if has_quant(a):
+            ov = len(array_symbols(a) & gs)
+            if ov:
+                scored.append((ov, n, a))
+    if not scored:
+        return False
+    scored.sort(key=lambda x: (-x[0], -x[1]))      # most overlap first, among equals the most recent
+    hyps = [a for _, _, a in scored[:max_hyps]]
+    for group in [hyps[:2], hyps[:4], hyps]:
+        s = z3.Solver()
+        s.set('timeout', per_try_ms)
+        s.add(*qf)
+        s.add(*group)
+        s.add(goal)
+        if s.check() == z3.unsat:
+            return True
+    return False
 
 
 def feasible(assertions):
@@ -70,6 +139,19 @@ def _run_ext(cmd, text, timeout):
 def decide(assertions, want_model=True, ext=True):
     """-> (verdict, model_or_None, backend, seconds); verdict in unsat/sat/unknown"""
     t0 = time.time()
+    if SLICE_FIRST and ADAPT['first'] and ext and has_quant(assertions[-1]):
+        # In this function the full query has already timed out where the slice succeeded: try the slice that
+        # talks about the goal's arrays first (milliseconds when the goal is a hypothesis carried over a step
+        # that does not touch it).  Switched off again after three misses in a row.
+        if sliced_unsat(assertions, per_try_ms=400, max_hyps=4):
+            ADAPT['miss'] = 0
+            STATS.setdefault('z3-api-sliced', [0, 0.0])
+            STATS['z3-api-sliced'][0] += 1
+            STATS['z3-api-sliced'][1] += time.time() - t0
+            return 'unsat', None, 'z3-api-sliced', time.time() - t0
+        ADAPT['miss'] += 1
+        if ADAPT['miss'] >= 3:
+            ADAPT['first'] = False
     s = z3.Solver()
     # first a short attempt (almost every obligation takes milliseconds); the other solvers are tried
     # before z3 gets its full budget, because cvc5 decides most of z3's slow quantified queries at once
@@ -85,6 +167,16 @@ def decide(assertions, want_model=True, ext=True):
         return 'sat', (s.model() if want_model else None), 'z3-api', dt
     if not ext:
         return 'unknown', None, 'z3-api', dt
+    # sliced attempt: the quantifier-free facts plus the few quantified hypotheses that talk about the same
+    # arrays as the goal.  A subset of the assumptions: `unsat` here is `unsat` of the whole query.
+    t1 = time.time()
+    if sliced_unsat(assertions):
+        ADAPT['first'] = True
+        ADAPT['miss'] = 0
+        STATS.setdefault('z3-api-sliced', [0, 0.0])
+        STATS['z3-api-sliced'][0] += 1
+        STATS['z3-api-sliced'][1] += time.time() - t1
+        return 'unsat', None, 'z3-api-sliced', time.time() - t0
     text = '(set-logic ALL)\n' + s.to_smt2()
     verdicts = {}
     for name, cmd in (('cvc5-1.0.3', ['/usr/bin/cvc5', '--lang=smt2', '--tlimit=%d' % (EXT_TIMEOUT_S * 1000)]),
